@@ -180,6 +180,15 @@ impl T {
 }
 
 impl T {
+    fn has_bunion(&self) -> bool {
+        match self {
+            T::Leaf { .. } => false,
+            T::BUnion { .. } => true,
+            T::Inter { cs, .. } => cs.iter().any(|c| c.has_bunion()),
+            T::Excl { u, es, .. } => u.has_bunion() || es.iter().any(|c| c.has_bunion()),
+            T::ReqOpt { req, opt, .. } => req.has_bunion() || opt.has_bunion(),
+        }
+    }
     fn has_bitset(&self) -> bool {
         match self {
             T::Leaf { kind, .. } => *kind == 2,
@@ -848,11 +857,25 @@ const KNOWN_KEYS: [&str; 6] = [K_S4, K_FILL_SCORE, K_UNION_COUNT, K_INTER_COUNT,
 
 /// attribute a document-sequence deviation to a known finding iff it disappears when exactly the
 /// construct named by the finding is replaced by an equivalent one
-fn attribute(t: &T, prog: &[Call], key: &str, what: &str) -> String {
+fn attribute(t: &T, prog: &[Call], obs: &[String], key: &str, what: &str) -> String {
     let seq_keys = ["C13:sequence-deviates", "C13:doc-after-call-deviates", "C13:seek-danger-bound-out-of-range", "C13:seek-danger-missed-member",
         "C13:seek-danger-found-non-member", "C13:seek-danger-found-wrong-doc", "C13:advance-sequence-wrong", "C13:return-differs-from-doc"];
     if !seq_keys.contains(&key) {
         return key.to_string();
+    }
+    // the same defect without nesting: a seek_danger miss moved the union's window forward and the
+    // next (legal, larger) target is still below the returned bound, i.e. below the new window start
+    if key == "C13:seek-danger-bound-out-of-range" && t.has_bunion() {
+        let i: usize = what.strip_prefix("call ").and_then(|r| r.split(' ').next()).and_then(|x| x.parse().ok()).unwrap_or(0);
+        if i >= 1 && i < prog.len() {
+            if let (Call::Danger(t2), Call::Danger(_), Some(prev)) = (&prog[i], &prog[i - 1], obs.get(i - 1)) {
+                if let Some(b1) = prev.strip_prefix('L').and_then(|x| x.parse::<u32>().ok()) {
+                    if b1 > *t2 && b1 != TERMINATED {
+                        return K_NESTED_UNION.to_string();
+                    }
+                }
+            }
+        }
     }
     let clean = |vs: Option<Vec<(String, String)>>| vs.map(|v| v.iter().all(|(k, _)| KNOWN_KEYS.contains(&k.as_str()) && k != K_BITSET && k != K_NESTED_UNION)).unwrap_or(false);
     if t.has_bitset() && what.contains("expected 2147483647") && clean(sequence_verdicts(&t.without_bitset(), prog)) {
@@ -899,7 +922,7 @@ fn check_direct(ctx: &mut Ctx, t: &T, prog: &[Call], label: &str) -> bool {
     };
     if fdocs != all {
         let i = fdocs.iter().zip(all.iter()).position(|(a, b)| a != b).unwrap_or(fdocs.len().min(all.len()));
-        let key = attribute(t, &[], "C13:advance-sequence-wrong", "");
+        let key = attribute(t, &[], &[], "C13:advance-sequence-wrong", "");
         ctx.report.violation("oracle", &key, format!("{top}: plain advance enumerates {} docs, brute force {}; first difference at index {i}: {:?} vs {:?}", fdocs.len(), all.len(), fdocs.get(i), all.get(i)), case);
         return true;
     }
@@ -940,7 +963,7 @@ fn check_direct(ctx: &mut Ctx, t: &T, prog: &[Call], label: &str) -> bool {
     let mut new_oracle = false;
     let mut bitset_finding = false;
     for (key, what) in &v.oracle {
-        let key = attribute(t, prog, key, what);
+        let key = attribute(t, prog, &obs, key, what);
         bitset_finding |= key == K_BITSET;
         if !KNOWN_KEYS.contains(&key.as_str()) {
             new_oracle = true;
